@@ -333,7 +333,16 @@ impl<M: wire::Decode> wire::Decode for Frame<M> {
             Ok(StreamKind::Gossip) => {
                 let data = varint::payload::decode(reader)?;
                 let mut cursor = io::Cursor::new(data);
-                let msg = M::decode(&mut cursor)?;
+                // Nb. The frame is complete at this point. Running out of data
+                // here means the message is invalid, not that more data is needed.
+                let msg = M::decode(&mut cursor).map_err(|e| {
+                    if e.is_eof() {
+                        io::Error::new(io::ErrorKind::InvalidData, "truncated message in frame")
+                            .into()
+                    } else {
+                        e
+                    }
+                })?;
                 let frame = Frame {
                     version,
                     stream,
